@@ -157,7 +157,7 @@ def plain_body(draw, frame_params):
 
 @st.composite
 def strat_inputs(draw):
-    deco = draw(st.sampled_from(["check_input"] * 3 + ["check_io"] * 2))
+    deco = draw(st.sampled_from(["check_input"] * 2 + ["check_io"]))
     kind = draw(_kind_strategy())
     is_async = draw(st.integers(0, 5)) == 0
     others = OTHER_NAMES[: draw(st.integers(0, 2))]
@@ -231,7 +231,7 @@ def strat_inputs(draw):
                 options.append("none")
             if n in pos[:p]:
                 options.append("int")
-            g = draw(st.sampled_from(options))
+            g = draw(st.sampled_from(options + [o for o in options if o != "str"] * 2))
         inputs.append({"name": n, "schema": schemas[n], "getter": g})
 
     frame_params = [n for n in designated if not schemas[n].startswith("ser_")]
